@@ -1,2 +1,80 @@
--- stub: replaced by the model driver of this property
-def main : IO Unit := pure ()
+import SdcModel.Basic.Io
+import SdcModel.LockLts
+open Sdc Sdc.LockLts
+
+/-! ops (actions are tokens `acq:l rel:l rdV rdD rdC deref incV wrD:x wrC:x mutate:x`, programs separated by `|`):
+  `wl <acts>`                           -> `ok <WellLocked> <ReadOnly> <NoMutate>`
+  `force n1 n2 … | R | W1 | W2 …`      -> thread 0 = R; after R has completed `n_k` actions writer `k` is started;
+                                           a started writer runs whenever it is enabled (priority over R), R otherwise
+  `sched t1 t2 … | P0 | P1 | …`        -> run the schedule (thread ids), skipping disabled steps
+  answer of `force` / `sched`: `ok <thread 0: obsV ; obsD ; obsC ; left> | … | hist v:d:x …` -/
+
+def parseAct (s : String) : Option Act :=
+  match s.splitOn ":" with
+  | ["acq", l] => l.toNat?.map Act.acq
+  | ["rel", l] => l.toNat?.map Act.rel
+  | ["rdV"] => some .rdV
+  | ["rdC"] => some .rdC
+  | ["rdD"] => some .rdD
+  | ["wrD", x] => x.toNat?.map Act.wrD
+  | ["deref"] => some .deref
+  | ["incV"] => some .incV
+  | ["wrC", x] => x.toNat?.map Act.wrC
+  | ["mutate", x] => x.toNat?.map Act.mutate
+  | _ => none
+
+def parseProgs (parts : List (List String)) : Option (List (List Act)) := parts.mapM (·.mapM parseAct)
+
+def showThr (t : Thr) : String :=
+  s!"{Io.natList t.obsV} ; {Io.natList t.obsD} ; {Io.natList t.obsC} ; {t.todo.length}"
+
+def showCfg (c : Cfg) (n : Nat) : String :=
+  let thr := (List.range n).map (fun j => showThr (c.thr j))
+  let hist := c.hist.map (fun p => s!"{p.1}:{p.2.1}:{p.2.2}")
+  "ok " ++ " | ".intercalate thr ++ " | hist " ++ " ".intercalate hist
+
+/-- step thread `i` `n` times; `none` when a step is not enabled -/
+def stepN (c : Cfg) (i : Nat) : Nat → Option Cfg
+  | 0 => some c
+  | n + 1 => match stepFn c i with
+    | some c' => stepN c' i n
+    | none => none
+
+/-- forced run: `starts[k]` = number of completed R actions after which writer `k+1` is started -/
+def forceRun (c : Cfg) (starts : List Nat) : Nat → Nat → Cfg
+  | 0, _ => c
+  | fuel + 1, doneR =>
+    -- started writers, lowest id first
+    let started := (List.range starts.length).filter (fun k => starts.getD k 0 ≤ doneR)
+    match started.findSome? (fun k => stepFn c (k + 1)) with
+    | some c' => forceRun c' starts fuel doneR
+    | none =>
+      match stepFn c 0 with
+      | some c' => forceRun c' starts fuel (doneR + 1)
+      | none => c
+
+def stepLine (st : Unit) (line : String) : Unit × String :=
+  let parts := (Io.words line).splitOn "|"
+  match parts with
+  | ("wl" :: acts) :: [] =>
+    match acts.mapM parseAct with
+    | some p => (st, s!"ok {decide (WellLocked p)} {decide (ReadOnly p)} {decide (NoMutate p)}")
+    | none => (st, "bad-op")
+  | ("force" :: ns) :: progs =>
+    match Io.parseNats ns, parseProgs progs with
+    | some starts, some ps =>
+      if starts.length + 1 = ps.length then
+        let c0 := mkCfg ps 0 0 0
+        let total := (ps.map List.length).foldl (· + ·) 0
+        (st, showCfg (forceRun c0 starts (2 * total + 4) 0) ps.length)
+      else (st, "bad-op")
+    | _, _ => (st, "bad-op")
+  | ("sched" :: ts) :: progs =>
+    match Io.parseNats ts, parseProgs progs with
+    | some sched, some ps =>
+      let r := runSched (mkCfg ps 0 0 0) sched
+      (st, showCfg r.1 ps.length ++ " | moved " ++ " ".intercalate (r.2.map (fun b => if b then "1" else "0")))
+    | _, _ => (st, "bad-op")
+  | _ => (st, "bad-op")
+
+def main : IO Unit := Io.lineLoop stepLine ()
